@@ -63,8 +63,16 @@ func (g *Gen) verify() {
 	st := newState()
 	g.initGhosts(st)
 	env := map[string]Val{}
+	coverVals := ""
 	for _, p := range fn.Params {
 		v := g.symFor(p.Type(), p.Name(), st)
+		if p.Name() == g.splitCallee { // case split on a parameter: this instance uses the literal
+			if strings.HasPrefix(g.splitVal, "?cover:") {
+				coverVals = strings.TrimPrefix(g.splitVal, "?cover:")
+			} else {
+				v = intV(smtLit(g.splitVal))
+			}
+		}
 		g.regs[p] = v
 		env[p.Name()] = v
 		env["old:"+p.Name()] = v
@@ -74,6 +82,14 @@ func (g *Gen) verify() {
 	g.env = env
 	for _, r := range c.Requires {
 		g.assume(st, g.spec(st, r.Expr, env))
+	}
+	if coverVals != "" {
+		var alts []string
+		for _, v := range strings.Fields(coverVals) {
+			alts = append(alts, fmt.Sprintf("(= %s %s)", env[g.splitCallee].T, smtLit(v)))
+		}
+		g.oblige(st, "lemma", "split.exhaustive["+g.splitCallee+"]", c.Line, "(or false "+strings.Join(alts, " ")+")")
+		return
 	}
 	// vacuity guard: the precondition must be satisfiable
 	g.obls = append(g.obls, Obl{Name: "requires.cover", Kind: "cover", Pc: st.pc, Goal: "false", Cover: true})
@@ -254,6 +270,9 @@ func (g *Gen) cellByName(st *State, name string) (Val, bool) {
 
 func (g *Gen) lookupName(st *State, name string, env map[string]Val) Val {
 	_, isOld := env["$old"]
+	if _, shadow := env["$p:"+name]; shadow {
+		return env[name]
+	}
 	if strings.HasPrefix(name, "$") {
 		if isOld {
 			if v, ok := g.entryGhost[name]; ok {
@@ -278,8 +297,11 @@ func (g *Gen) lookupName(st *State, name string, env map[string]Val) Val {
 			return v
 		}
 	}
-	if name == "#i" {
+	if name == "#i" { // index of the last completed iteration of a `range` over a slice/array/string (-1 based)
 		name = "rangeindex"
+	}
+	if name == "#n" { // current iteration number of a `range` over an integer (at the loop head: 0 <= #n < bound)
+		name = "rangeint.iter"
 	}
 	if _, inv := env["$inv"]; inv && !isOld {
 		if v, ok := g.cellByName(st, name); ok {
